@@ -440,7 +440,29 @@ func C16(c *Ctx) {
 				ok := followsAll(e.Fn, isChange, isPost, true)
 				r.Check(ok, "R16.5", e.Key()+": SERVICE event after status change", c.P.Pos(e.Fn.Pos()), "every successful path after a status change posts the SERVICE event", "a service status change can complete without the SERVICE event: the executor's cache keeps the old record and gates interchain traffic with it")
 			}
-			// helper with its own status change + callers posting: basicGovernance-like helpers
+			// helpers of the contract that change a status themselves and are not wrappers whose callers post
+			// (e.g. pauseOrClearChainService, which walks all services of a chain)
+			entryFns := map[*ssa.Function]bool{}
+			for _, e := range sm.Entries {
+				if e.Fn != nil {
+					entryFns[e.Fn] = true
+				}
+			}
+			for _, fn := range m.funcs {
+				if entryFns[fn] || fn.Parent() != nil || fn.Signature.Recv() == nil || !strings.HasSuffix(core.RecvTypeName(fn.Signature.Recv().Type()), "contracts.ServiceManager") {
+					continue
+				}
+				switch fn.Name() {
+				case "pauseService", "unPauseService", "clearService", "postServiceEvent":
+					continue // status-change wrappers: judged at their call sites
+				}
+				if len(sites(fn, isChange)) == 0 {
+					continue
+				}
+				n++
+				ok := followsAll(fn, isChange, isPost, true)
+				r.Check(ok, "R16.5", "ServiceManager."+fn.Name()+": SERVICE event after status change", c.P.Pos(fn.Pos()), "every successful path after a status change posts the SERVICE event", "a service status change can complete without the SERVICE event: the executor's cache keeps the old record and gates interchain traffic with it")
+			}
 			r.Floor("R16.5", "service-manager entries changing status directly", n, 3)
 		}
 	}
